@@ -268,7 +268,7 @@ func main() {
 		if err != nil {
 			panic(err)
 		}
-		for round := 0; round < *rounds/6+5 && atomic.LoadInt32(&failures) < 3; round++ {
+		for round := 0; round < *rounds/2+5 && atomic.LoadInt32(&failures) < 3; round++ {
 			src := fmt.Sprintf("e%d", round)
 			if c := one(tl, src); c != http.StatusOK {
 				fail("C03", "E round %d: the first request of a new source was answered %d", round, c)
